@@ -32,7 +32,11 @@ pub trait Sim: Send + Sync {
     fn fault_point(&self, site: &'static str, path: &Path) -> Option<std::io::Error>;
     /// A pure yield point inside code generation (the schema / query accessors). Scheduling point
     /// when the simulator wants interleavings below cache-lock granularity; no-op by default.
-    fn yield_point(&self, _site: &'static str) {}
+    /// Returning true makes the caller panic at this point (an injected crash in the middle of
+    /// code generation).
+    fn yield_point(&self, _site: &'static str) -> bool {
+        false
+    }
 }
 
 static SIM: OnceLock<Box<dyn Sim>> = OnceLock::new();
@@ -51,7 +55,9 @@ pub fn fault_point(site: &'static str, path: &Path) -> Option<std::io::Error> {
 #[inline]
 pub fn yield_point(site: &'static str) {
     if let Some(sim) = SIM.get() {
-        sim.yield_point(site);
+        if sim.yield_point(site) {
+            panic!("verif-injected-panic at {}", site);
+        }
     }
 }
 
